@@ -212,7 +212,7 @@ def toggle_words(L):
 
 
 TIERS = {"quick": {"worlds": [("W1", "rev"), ("W2", "default"), ("W3", "default")], "L": 2},
-         "thorough": {"worlds": [("W1", "rev"), ("W2", "rev"), ("W3", "rev")], "L": 4}}
+         "thorough": {"worlds": [("W1", "rev"), ("W1c", "default"), ("W2", "rev"), ("W3", "rev"), ("W4", "default")], "L": 4}}
 
 
 def make_tasks(tier):
